@@ -1,6 +1,6 @@
 (* C08 - exit status faithfully summarises the run.  Statements only; proofs in Dsh/ExitFacts.v. *)
 From Coq Require Import Permutation.
-From PV Require Import Dsh.Exit Dsh.ExitFacts.
+From PV Require Import Dsh.Exit Dsh.ExitFacts Dsh.Sys Dsh.SysExit.
 Local Open Scope Z_scope.
 
 (* with -S: the largest return code of any remote command, raised to RC_FAILED (254) if any
@@ -35,6 +35,20 @@ Print Assumptions C08_signaled_never_zero.
 Theorem C08_no_S : forall l, exit_status false l = 0.
 Proof. exact no_S_zero. Qed.
 Print Assumptions C08_no_S.
+
+(* which hosts the -S loop sees as FAILED: in the timed system of the whole run (Dsh/Sys.v) a worker that has
+   written its final status is in state FAILED exactly when it took a failure branch, DONE otherwise ... *)
+Theorem C08_final_status : forall (c : cfg) t0 es s i w, run c (init c t0) es = Some s ->
+  nth_error (ws s) i = Some w -> settled (pc w) = true -> ts w = if failed w then TFailed else TDone.
+Proof. exact final_status. Qed.
+Print Assumptions C08_final_status.
+
+(* ... and the failure branches are exactly: connect refused, connect interrupted by the connect time-out, command
+   interrupted by the command time-out - "could not be reached or timed out" *)
+Theorem C08_failed_means_unreachable_or_timed_out : forall (c : cfg) t0 es s i w, run c (init c t0) es = Some s ->
+  nth_error (ws s) i = Some w -> failed w = true -> existsb (fail_event i) es = true.
+Proof. exact failed_needs_event. Qed.
+Print Assumptions C08_failed_means_unreachable_or_timed_out.
 
 Example C08_nonvacuous :
   aggregate [mkhres HDone 255; mkhres HFailed 0; mkhres HDone 3] = 255 /\
